@@ -25,6 +25,7 @@ structure St where
   awaitPost : Bool := false
   hist : List (Nat × Chk × String × Img) := []   -- observed positions: txid, checksum, image digest, image
   appliedSince : Bool := false   -- a transaction file was applied since the last `state` line
+  snapSince : Bool := false      -- ... and one of them was a snapshot (first TXID 1): a replica may then be at a lower TXID than before
 
 def parseHex64 (s : String) : Option UInt64 :=
   (unhex s).map fun b => b.foldl (fun a x => a * 256 + x.toUInt64) 0
@@ -152,7 +153,7 @@ def check (st : St) (op obs : String) : St × String :=
       | _, _, _, _, _, _ => (st, s!"FAIL unreadable state after a crash: {obs.take 160}")
     | _, _ => (st, "ok")
   | "sapply" :: _ | "txapply" :: _ =>
-    if obs.startsWith "ok" then ({ st with appliedSince := true }, "ok") else (st, "ok")
+    if obs.startsWith "ok" then ({ st with appliedSince := true, snapSince := st.snapSince || f.getD 1 "" == "1" }, "ok") else (st, "ok")
   | "dbw" :: _ | "jw" :: _ | "ww" :: _ =>
     -- page, journal and WAL writes on a node without write authority: read-only permission error
     if st.replica && !(obs == "readonly" || obs == "enoent") then (st, s!"FAIL write accepted on a node without write authority: {obs.take 60}") else (st, "ok")
@@ -168,12 +169,12 @@ def check (st : St) (op obs : String) : St × String :=
     if (fieldOf ws "exit").isSome then (st, s!"FAIL the store exited on a healthy history: {obs}") else
     match (fieldOf ws "pos") >>= parsePos, (fieldOf ws "pageN") >>= String.toNat?, st.ref with
     | some (t, c), some n, some img =>
-      let st' := { st with posTxid := t, posChk := c, appliedSince := false, prevObsTxid := if st.ref.isSome && st.prev.isSome then some st.posTxid else none }
+      let st' := { st with posTxid := t, posChk := c, appliedSince := false, snapSince := false, prevObsTxid := if st.ref.isSome && st.prev.isSome then some st.posTxid else none }
       if st.replica && !st.appliedSince && (t ≠ st.posTxid || c ≠ st.posChk) && st.posTxid ≠ 0 then
         (st', "FAIL position changed on a node without write authority although no transaction file was applied")
       else if n ≠ img.length then (st', s!"FAIL database size {n} differs from what SQLite sees ({img.length} pages)")
       else if t ≠ 0 && c ≠ checksum (lockOf st.ps) img then (st', s!"FAIL reported checksum {hex16 c} differs from the from-scratch checksum {hex16 (checksum (lockOf st.ps) img)}")
-      else if t < st.posTxid then (st', "FAIL position went backwards")
+      else if t < st.posTxid && !(st.replica && st.snapSince) then (st', "FAIL position went backwards")
       else if !st.replica && st.posTxid ≠ 0 && t > st.posTxid + 1 then (st', "FAIL position advanced by more than one transaction")
       else (st', "ok")
     | some (t, c), _, none => ({ st with posTxid := t, posChk := c }, "ok")
